@@ -327,7 +327,12 @@ def gen_C17(tier, rnd):
         for t in ['( ' * k + '-name x -o -uid 0' + ' )' * k, '! ' * k + '-true', ' -o '.join(['( ! -true )'] * k), ' '.join(['! -name x%d' % i for i in range(k)]),
                   '( ! ' * k + '-name x' + ' )' * k]:
             b.append('C %s %s' % (hx(t), hx('/dev/x')))
-    return a + b, {'rule': 'long and deeply nested expressions (65..300 levels / operands); the C03 (totality) and C05 (vocabulary) corpora through a debug and a release build of the harness, observations compared request by request; ' + ia['rule'], 'streams': {'totality': len(a), 'vocab': len(b)}}
+    # octal escapes in a row (UTF-8 byte sequences spelled as escapes), through parse AND compile, in both builds
+    for run in gp.octal_runs():
+        esc = ''.join('\\%03o' % v for v in run)
+        b.append('C %s %s' % (hx("-printf '%%p %s\\n'" % esc), hx('/dev/x')))
+        b.append('C %s %s' % (hx("-fprintf out.txt '%s %%f\\n'" % esc), hx('/dev/x')))
+    return a + b, {'rule': 'octal escapes in a row; long and deeply nested expressions (65..300 levels / operands); the C03 (totality) and C05 (vocabulary) corpora through a debug and a release build of the harness, observations compared request by request; ' + ia['rule'], 'streams': {'totality': len(a), 'vocab': len(b)}}
 
 
 GENERATORS['C17'] = gen_C17
